@@ -522,7 +522,7 @@ int disasm_dspic(
         case OP_WS_WB:
           get_wd(temp, sizeof(temp), opcode & 0xf, (opcode >> 4) & 0x7, 0);
           w = (opcode >> 11) & 0xf;
-          b = (opcode >> 14) & 1;
+          b = (opcode >> 15) & 1;
           snprintf(instruction, length, "%s%s %s, w%d", table_dspic[n].name, (b == 0) ? ".c" : ".z", temp, w);
           return 4;
         case OP_WS_WB_WD_WB:
